@@ -160,7 +160,7 @@ def check(run):
     scenarios, meta = scenarios + s2, meta + m2
     ceremony.standard_check(
         run, PROP, scenarios, meta, ["c04_ok"], pair_oracle=non_disclosure, py_oracle=ceremony.signature_oracle,
-        coq_files=["theories/Auth/Authenticator.v", "theories/Auth/C04Facts.v"],
+        coq_files=["theories/Auth/Authenticator.v", "theories/Auth/C04Facts.v", "theories/Auth/C04Client.v", "theories/Auth/SkeletonFacts.v"],
         rule="complete enumeration of operation x (rk,up,uv) x verification capability (None/Some false/Some true) x presence capability "
              "x user answer (4 presence/verification results, 2 errors) x pin-auth x matching credential present/absent x store kind; plus assertions with 2-3 matching credentials (allow list in "
              "every rotation / absent / empty) where the credential shown for consent and the signing key (independent ECDSA check) are compared",
